@@ -2,6 +2,7 @@ import AlgoVerif.Model.C13X
 import AlgoVerif.Spec.C13X
 import AlgoVerif.Proofs.C13IsoNFA
 import AlgoVerif.Proofs.C13MinimalFull
+import AlgoVerif.Proofs.C13Results
 /-! C13: the read-only public API — `Transitions()` as a range-over-func iterator with early exit is a
 `for … break` loop over the entries of the table in iteration order; the consumer of the op `trans X k` collects the
 first `k` entries; `NFA.Next` against the transition relation and the builder API. -/
@@ -95,5 +96,53 @@ theorem NFA.TSorted_add {n : NFA} (h : n.TSorted) (s a : Int) (l : List Int) : (
     | none => simp [SSorted]
     | some x => exact h s a x hx
   · exact h s' a' nx hn
+
+/-! ### `X.Final.Add(s)`: the exported `Final` set edited in place -/
+
+theorem NFA.addFinal_Δ (n : NFA) (s : Int) : (n.addFinal s).Δ = n.Δ := rfl
+theorem DFA.addFinal_δ (d : DFA) (s : Int) : (d.addFinal s).δ = d.δ := rfl
+theorem DFA.addFinal_next (d : DFA) (s : Int) : (d.addFinal s).next = d.next := rfl
+
+/-- after `Final.Add(s)` an NFA accepts what it accepted before and every word some path spells from the start state to `s` -/
+theorem NFA.addFinal_lang (n : NFA) (s : Int) (w : Word) :
+    (n.addFinal s).lang w ↔ n.lang w ∨ Path n.Δ n.start w s := by
+  show (∃ f, f ∈ sins s n.final ∧ Path n.Δ n.start w f) ↔ (∃ f, f ∈ n.final ∧ Path n.Δ n.start w f) ∨ _
+  constructor
+  · rintro ⟨f, hf, hp⟩
+    rcases mem_sins.1 hf with rfl | hf
+    · exact Or.inr hp
+    · exact Or.inl ⟨f, hf, hp⟩
+  · rintro (⟨f, hf, hp⟩ | hp)
+    · exact ⟨f, mem_sins.2 (Or.inr hf), hp⟩
+    · exact ⟨s, mem_sins.2 (Or.inl rfl), hp⟩
+
+/-- after `Final.Add(s)` a DFA accepts what it accepted before and every word whose run ends in `s` -/
+theorem DFA.addFinal_lang (d : DFA) (s : Int) (w : Word) :
+    (d.addFinal s).lang w ↔ d.lang w ∨ dfaRun d.δ (some d.start) w = some s := by
+  show (∃ f, dfaRun d.δ (some d.start) w = some f ∧ f ∈ sins s d.final) ↔
+    (∃ f, dfaRun d.δ (some d.start) w = some f ∧ f ∈ d.final) ∨ _
+  constructor
+  · rintro ⟨f, hr, hf⟩
+    rcases mem_sins.1 hf with rfl | hf
+    · exact Or.inr hr
+    · exact Or.inl ⟨f, hr, hf⟩
+  · rintro (⟨f, hr, hf⟩ | hr)
+    · exact ⟨f, hr, mem_sins.2 (Or.inr hf)⟩
+    · exact ⟨s, hr, mem_sins.2 (Or.inl rfl)⟩
+
+/-- the same on the executable `Accept` of the Model: the run of `Next` from the start state ends in a state that was
+final before, or in `s` -/
+theorem DFA.addFinal_accept (d : DFA) (s : Int) (w : Word) :
+    (d.addFinal s).accept w = (d.accept w || (w.foldl d.next d.start == s)) := by
+  simp only [DFA.accept, DFA.addFinal_next]
+  show (sins s d.final).contains (w.foldl d.next d.start) = _
+  rw [Bool.eq_iff_iff]
+  simp [mem_sins, or_comm]
+
+theorem DFA.addFinal_good {d : DFA} (h : d.Good) (s : Int) (hs : s ≠ -1) : (d.addFinal s).Good :=
+  ⟨h.wf, ⟨fun hm => by
+      rcases mem_sins.1 hm with h1 | h1
+      · exact hs h1.symm
+      · exact h.proper.1 h1, h.proper.2⟩, ssorted_sins h.fin, h.noEps⟩
 
 end AlgoVerif.C13
